@@ -21,10 +21,14 @@ EXPLANATION = (
     "depth); (3) no public function mutates a parameter or a plain alias of it in place (net-zero and "
     "internal-recursion exceptions frozen with reasons); (4) module-level mutable state is written only by its "
     "frozen owner functions and no function has a mutable default argument; (5) building a container from another "
-    "does not share the mutable Note objects. Zero-count rules are exercised on positive fixtures on every run.")
+    "does not share the mutable Note objects; (6) fft._find_log_index, the lookup with position memory, is evaluated in an "
+    "order domain (strictly increasing symbolic table, unknown frequencies, every comparison a case split): from any "
+    "remembered state satisfying 'the remembered frequency lies in the remembered row' every shortcut answer is the row f "
+    "lies in, the search is entered from a start the cold search passes through, and every state written re-establishes "
+    "the invariant. Zero-count rules are exercised on positive fixtures on every run.")
 TRUSTED = ["CPython ast module", "mingus_static effect analysis and abstract evaluator", "frozen exception / ownership tables in rules/c15.py (one reason per row)"]
-NOT_DECIDED = ("that fft._find_log_index's accelerated path equals its cold path for every frequency (a numeric fact about a sorted table; "
-               "only ownership of _last_asked is decided); value-independence of arbitrary call histories beyond purity + memo transparency")
+NOT_DECIDED = ("termination of fft._find_log_index's search loop and the fallback statements after it (the shortcut paths, the loop entry and "
+               "the in-loop answers are decided); value-independence of arbitrary call histories beyond purity + memo transparency")
 
 SCOPE_PREFIXES = ("mingus.core.", "mingus.containers.")
 SCOPE_EXTRA = {"mingus.midi.midi_file_out", "mingus.midi.midi_track", "mingus.midi.sequencer", "mingus.midi.sequencer_observer", "mingus.extra.fft"}
@@ -66,12 +70,14 @@ def run(ctx):
     n3 = rule_param_mutation(ctx, repo, mods, "R-C15-3")
     n4 = rule_module_state(ctx, repo, [m for n, m in sorted(repo.modules.items()) if in_scope(n) or n in ("mingus.extra.tunings",)], "R-C15-4")
     rule_copies(ctx, repo)
+    rule_accelerator(ctx, repo)
     rule_fixtures(ctx)
     ctx.floor("R-C15-1", 7)
     ctx.floor("R-C15-2", 30)
     ctx.floor("R-C15-3", 150)
     ctx.floor("R-C15-4", 5)
     ctx.floor("R-C15-5", 2)
+    ctx.floor("R-C15-6", 3)
     ctx.floor("R-C15-F", 5)
 
 
@@ -354,6 +360,181 @@ def rule_copies(ctx, repo):
         paths = explore(lambda ch: Interp(repo, ch), twice)
         ok = len(paths) == 1 and paths[0].kind == "return" and isinstance(paths[0].value[0], dict) and paths[0].value[0] is not paths[0].value[1]
         ctx.check(ok, R, "Note.dynamics", dyn.where(), "Note.dynamics", "the dynamics dictionary handed out must be a fresh object on every access")
+
+
+# ------------------------------------------------------------------------------ R-C15-6
+def rule_accelerator(ctx, repo):
+    """fft._find_log_index keeps the position of the last lookup.  The table and the frequencies are only ever compared,
+    so the function is evaluated in the order domain (engine/orddom.py): the table is a strictly increasing sequence of
+    unknowns, f and the remembered frequency are unknowns, every undetermined comparison splits the path.
+
+    Invariant I(state): state is None, or (n, v) with T[n-1] < v <= T[n]  ("v lies in row n").
+    Obligations, for every state satisfying I and every f:
+      * a path that answers n before the search loop entails T[n-1] < f <= T[n] -- the answer a cold lookup gives;
+      * the out-of-range answer 128 entails f > T[127] or f <= 0;
+      * a path that enters the search loop does so with begin = 0, or with T[begin] < f (a start the cold search passes through);
+      * every write of the state re-establishes I (so the next lookup starts from a true statement);
+      * an answer given inside the loop entails T[n-1] < f <= T[n] and leaves I established.
+    The loop's own termination argument and the statements after it are not decided."""
+    from ..engine.orddom import OrdVal, MonoTable, TabVal, assume, entails, consistent
+    from ..engine.loader import FuncInfo
+    import copy as _copy
+    R = "R-C15-6"
+    FFT = "mingus.extra.fft"
+    mod = repo.mod(FFT)
+    fi = mod.func("_find_log_index")
+    mod.glob("_last_asked"), mod.glob("_log_cache")
+    ctx.touch(fi)
+    body = fi.body
+    loops = [i for i, st in enumerate(body) if isinstance(st, (ast.While, ast.For))]
+    if len(loops) != 1:
+        raise AnalysisError("fft._find_log_index: expected one search loop, found %d" % len(loops))
+    loop = body[loops[0]]
+    param = fi.params[0]
+
+    def sliced(name, stmts, params, tail):
+        ret = ast.Return(value=ast.Tuple(elts=[ast.Constant(value=tail)] + [ast.Name(id=n, ctx=ast.Load()) for n in ("begin", "end")], ctx=ast.Load()))
+        node = ast.FunctionDef(name=name, args=ast.arguments(posonlyargs=[], args=[ast.arg(arg=a) for a in params], kwonlyargs=[], kw_defaults=[], defaults=[]),
+                               body=[st for st in body[:1] if isinstance(st, ast.Global)] + list(stmts) + [ret], decorator_list=[], type_params=[])
+        ast.copy_location(node, fi.node)
+        ast.fix_missing_locations(node)
+        return FuncInfo(mod, fi.qualname + "." + name, node)
+    glob = [st for st in body if isinstance(st, ast.Global)]
+    pre = sliced("<before the loop>", [st for st in body[:loops[0]] if not isinstance(st, ast.Global)], [param], "SLOW")
+    pre.node.body = glob + pre.node.body
+    inner = sliced("<loop body>", loop.body, [param, "begin", "end"], "CONTINUE")
+    inner.node.body = glob + inner.node.body
+
+    def in_row(it, n, v):
+        n = Lin.of(n)
+        if n is None:
+            return "row %r is not an integer" % (n,)
+        a = entails(it, TabVal(T, n - 1), ast.Lt, v)
+        b = entails(it, v, ast.LtE, TabVal(T, n))
+        if a is True and b is True:
+            return None
+        return "%s[%s] < %s is %s, %s <= %s[%s] is %s" % (T.name, it.resolve(n - 1), v, {True: "entailed", False: "refuted", None: "not entailed"}[a],
+                                                         v, T.name, it.resolve(n), {True: "entailed", False: "refuted", None: "not entailed"}[b])
+
+    def state_ok(it, st, old):
+        if st is old:
+            return None
+        if st is None:
+            return None
+        if not (isinstance(st, tuple) and len(st) == 2 and isinstance(st[1], OrdVal)):
+            return "the remembered state becomes %r" % (st,)
+        w = in_row(it, st[0], st[1])
+        return None if w is None else "the remembered pair (%s, %s) does not satisfy 'the frequency lies in that row': %s" % (it.resolve(Lin.of(st[0])), st[1], w)
+
+    T = MonoTable("T", 129)
+    results = {}
+    for label in ("cold", "warm"):
+        def go(it, label=label):
+            f = OrdVal("f")
+            it.global_cache[(FFT, "_log_cache")] = T
+            if label == "cold":
+                old = None
+            else:
+                lastn, lastval = Sym("lastn", 0, 127), OrdVal("lastval")
+                old = (Lin.of(lastn), lastval)
+                assume(it, TabVal(T, Lin.of(lastn) - 1), ast.Lt, lastval)
+                assume(it, lastval, ast.LtE, TabVal(T, Lin.of(lastn)))
+            it.global_cache[(FFT, "_last_asked")] = old
+            try:
+                r = ("return", it.call_function(pre, [f], {}))
+            except RaiseEx as e:
+                r = ("raise", e.exc)
+            return r, f, old, it.global_cache[(FFT, "_last_asked")]
+        try:
+            paths = explore(lambda ch: Interp(repo, ch, max_iter=8), go)
+        except CannotDecide as e:
+            raise AnalysisError("fft._find_log_index (%s, before the loop): %s" % (label, e))
+        ok, why, n_fast, n_slow = bool(paths), "no outcome", 0, 0
+        for p in paths:
+            it = p.interp
+            if not consistent(it):
+                continue  # contradictory comparison outcomes: no input takes this path
+            (kind, val), f, old, st = p.value
+            if kind == "raise":
+                ok, why = False, "raises %s on a path with %s" % (val, it.__dict__.get("ord_assumed", [])[-3:])
+                break
+            w = state_ok(it, st, old)
+            if w:
+                ok, why = False, w
+                break
+            if isinstance(val, tuple) and val and val[0] == "SLOW":
+                n_slow += 1
+                begin, end = val[1], val[2]
+                lo, hi = it.lin_interval(it.resolve(Lin.of(begin)))
+                if not (Lin.of(end) is not None and Lin.of(end).is_const() and Lin.of(end).const == 128):
+                    ok, why = False, "the search starts with end = %s" % (end,)
+                elif not (lo == hi == 0) and entails(it, TabVal(T, Lin.of(begin)), ast.Lt, f) is not True:
+                    ok, why = False, "the search starts at begin = %s although %s[begin] < f is not known" % (it.resolve(Lin.of(begin)), T.name)
+                elif entails(it, f, ast.LtE, TabVal(T, 127)) is not True or entails(it, f, ast.Gt, 0) is not True:
+                    ok, why = False, "the search is entered without the range check 0 < f <= %s[127]" % T.name
+            else:
+                n_fast += 1
+                li = Lin.of(val) if not isinstance(val, (str, tuple, bool)) and val is not None else None
+                if li is None:
+                    ok, why = False, "answers %r" % (val,)
+                elif li.is_const() and li.const == 128:
+                    if entails(it, f, ast.Gt, TabVal(T, 127)) is not True and entails(it, f, ast.LtE, 0) is not True:
+                        ok, why = False, "answers 128 (out of range) without f > %s[127] or f <= 0" % T.name
+                else:
+                    w = in_row(it, li, f)
+                    if w:
+                        ok, why = False, ("answers %s from the remembered position although f need not lie in that row (%s): a cold lookup "
+                                          "would answer differently" % (it.resolve(li), w))
+            if not ok:
+                break
+        if ok and label == "warm" and n_fast < 2:
+            ok, why = False, "the remembered position is never used (%d shortcut answers)" % n_fast
+        results[label] = (n_fast, n_slow)
+        ctx.check(ok, R, "_find_log_index.before-loop[%s]" % label, fi.where(), "fft._find_log_index, %s state" % label, why,
+                  paths=len(paths), shortcut_answers=n_fast, searches=n_slow)
+
+    def go2(it):
+        f = OrdVal("f")
+        it.global_cache[(FFT, "_log_cache")] = T
+        lastn, lastval = Sym("lastn", 0, 127), OrdVal("lastval")
+        old = (Lin.of(lastn), lastval)
+        assume(it, TabVal(T, Lin.of(lastn) - 1), ast.Lt, lastval)
+        assume(it, lastval, ast.LtE, TabVal(T, Lin.of(lastn)))
+        it.global_cache[(FFT, "_last_asked")] = old
+        b, e = Sym("begin", 0, 127), Sym("end", 1, 128)
+        it._refine(Lin.of(e) - Lin.of(b), lo=1)
+        try:
+            r = ("return", it.call_function(inner, [f, Lin.of(b), Lin.of(e)], {}))
+        except RaiseEx as ex:
+            r = ("raise", ex.exc)
+        return r, f, old, it.global_cache[(FFT, "_last_asked")]
+    try:
+        paths = explore(lambda ch: Interp(repo, ch, max_iter=8), go2)
+    except CannotDecide as e:
+        raise AnalysisError("fft._find_log_index (loop body): %s" % e)
+    ok, why, answers = bool(paths), "no outcome", 0
+    for p in paths:
+        it = p.interp
+        if not consistent(it):
+            continue
+        (kind, val), f, old, st = p.value
+        if kind == "raise":
+            ok, why = False, "raises %s" % val
+            break
+        w = state_ok(it, st, old)
+        if w:
+            ok, why = False, w
+            break
+        if not (isinstance(val, tuple) and val and val[0] == "CONTINUE"):
+            answers += 1
+            li = Lin.of(val) if not isinstance(val, (str, tuple, bool)) and val is not None else None
+            w = "answers %r" % (val,) if li is None else in_row(it, li, f)
+            if w:
+                ok, why = False, "an answer given inside the search loop is not the row f lies in: %s" % w
+                break
+    if ok and answers < 1:
+        ok, why = False, "the loop body never answers"
+    ctx.check(ok, R, "_find_log_index.loop-body", fi.where(loop), "fft._find_log_index, one iteration of the search", why, paths=len(paths), answers=answers)
 
 
 # ------------------------------------------------------------------------------ fixtures
